@@ -27,7 +27,7 @@ def placement(demo):
     m = re.search(r"(mla/tests/[\w\-]+\.rs)", head)
     if m:
         return ("copy", m.group(1))
-    m = re.search(r"(mla/src/[\w/]+\.rs)", head)
+    m = re.search(r"(mla/src/[\w/]+\.rs|bindings/C/src/lib\.rs)", head)
     if m:
         return ("append", m.group(1))
     return (None, None)
@@ -35,7 +35,7 @@ def placement(demo):
 
 def run_cmd(demo):
     head = "\n".join(open(demo).read().split("\n")[:25])
-    m = re.search(r"(cargo test --offline -p mla [^\n`]*)", head)
+    m = re.search(r"(cargo test --offline -p [\w\-]+ [^\n`]*)", head)
     return m.group(1).strip() if m else None
 
 
